@@ -19,6 +19,7 @@ pub fn run_case(case: &Value) -> Value {
     crate::PANIC_LOC.with(|p| p.borrow_mut().clear());
     let r = catch_unwind(AssertUnwindSafe(|| match kind {
         "prog" => run_prog(case),
+        "front" => run_front(case),
         "codec_probe" => codec_probe(),
         "codec_sweep" => codec_sweep(case),
         _ => json!({"how":"tool-error","msg":format!("unknown kind {}", kind)}),
@@ -280,4 +281,40 @@ pub fn codec_sweep(case: &Value) -> Value {
         per_op.push(json!({"op": op, "tuples": n1 * n2, "ok": ok, "first_bad": first_bad}));
     }
     json!({"how":"ok","per_op":per_op,"sample":sample})
+}
+
+
+// ---------------------------------------------------------------- front end only (C01)
+/// scan + parse + compile of each text in `srcs` (no execution); one compact outcome per text:
+/// "o" compiled, "p" parse diagnostics, "c" compile diagnostics, "P<stage>|<location>" panic
+pub fn run_front(case: &Value) -> Value {
+    let srcs: Vec<String> = serde_json::from_value(case["srcs"].clone()).unwrap_or_default();
+    let mut outs: Vec<String> = Vec::with_capacity(srcs.len());
+    for src in srcs.iter() {
+        let parsed = guarded("parse", || {
+            let scanner = Scanner::new(src);
+            let mut parser = Parser::new(scanner);
+            let program = parser.parse_program();
+            let n = parser.parse_errors().len();
+            (program, n)
+        });
+        let (program, nerr) = match parsed {
+            Ok(p) => p,
+            Err(v) => {
+                outs.push(format!("Pparse|{}", v["msg"].as_str().unwrap_or("")));
+                continue;
+            }
+        };
+        if nerr > 0 {
+            outs.push("p".to_string());
+            continue;
+        }
+        let mut compiler = Compiler::new();
+        match guarded("compile", || compiler.compile(program)) {
+            Err(v) => outs.push(format!("Pcompile|{}", v["msg"].as_str().unwrap_or(""))),
+            Ok(Err(_)) => outs.push("c".to_string()),
+            Ok(Ok(())) => outs.push("o".to_string()),
+        }
+    }
+    json!({"how":"ok","outs":outs})
 }
